@@ -20,7 +20,7 @@ func (h *Hist) genConfigs() {
 		ng = r.pickI(2, 2, 3)
 	}
 	h.globalDry = r.chance(4)
-	h.big = r.chance(3) && focus != "fleet" && focus != "rotate" && focus != "restore" && !slowOK
+	h.big = (r.chance(3) && focus != "fleet" && focus != "rotate" && focus != "restore" && !slowOK) || focus == "big"
 	if focus == "dry" {
 		h.globalDry = r.chance(25)
 	}
@@ -490,7 +490,7 @@ func (h *Hist) randomEvent() string {
 		h.pods = keep
 		return "mass-mark"
 	}
-	if h.big && r.chance(12) {
+	if h.big && r.chance(map[bool]int{true: 25, false: 12}[focus == "big"]) {
 		// … and an operator cordons what is still marked
 		for _, n := range h.cfgIndexNodes(0) {
 			if (n.hasTaint(escKey) || n.hasTaint(forceKey)) && r.chance(50) {
